@@ -53,6 +53,9 @@ fn cmd_replay(args: &[String]) {
         })
         .unwrap_or((0, 1));
     let limit = arg(args, "--limit").map(|s| s.parse::<usize>().unwrap()).unwrap_or(usize::MAX);
+    let from = arg(args, "--from").map(|s| s.parse::<usize>().unwrap()).unwrap_or(0);
+    // the index of the behaviour being replayed, for the runner to find after a crash
+    let mut progress = arg(args, "--progress").map(|p| std::fs::OpenOptions::new().create(true).write(true).truncate(true).open(p).expect("progress"));
 
     let f = std::io::BufReader::new(std::fs::File::open(&input).expect("open input"));
     let mut out = std::io::BufWriter::new(std::fs::File::create(&trace_path).expect("create trace"));
@@ -67,8 +70,13 @@ fn cmd_replay(args: &[String]) {
     let mut ops_total = 0usize;
     for (idx, line) in f.lines().enumerate() {
         let line = line.expect("read");
-        if line.trim().is_empty() || idx % shard_n != shard_i {
+        if line.trim().is_empty() || idx % shard_n != shard_i || idx < from {
             continue;
+        }
+        if let Some(pf) = progress.as_mut() {
+            use std::io::{Seek, SeekFrom};
+            let _ = pf.seek(SeekFrom::Start(0));
+            let _ = write!(pf, "{idx:012}");
         }
         if n >= limit {
             break;
